@@ -52,6 +52,12 @@ func newWSHandler(host string, dial dialFunc, conn gkm.Gauge) http.Handler {
 		}
 		defer out.Close()
 
+		// like the http proxy, do not make up a User-Agent header
+		// when the client did not send one
+		if _, ok := r.Header["User-Agent"]; !ok {
+			r.Header.Set("User-Agent", "")
+		}
+
 		err = r.Write(out)
 		if err != nil {
 			log.Printf("[ERROR] Error copying request for %s. %s", r.URL, err)
